@@ -1015,6 +1015,11 @@ func lookupModel(fn *ssa.Function) (modelFn, bool) {
 				e.reach(st, strArg(args[0]))
 				return TupleV{}
 			}, true
+		case "vSettle":
+			return func(e *Engine, st *State, args []Value, call *ssa.Call, pos token.Pos) Value {
+				e.settle(st, st.top())
+				return TupleV{}
+			}, true
 		case "vElapsedSec": // whole seconds elapsed on the virtual clock (natively: real time since the harness started)
 			return func(e *Engine, st *State, args []Value, call *ssa.Call, pos token.Pos) Value {
 				return Bin("bvudiv", st.now(), BV(64, 1000000000))
